@@ -592,6 +592,7 @@ void executeRun(const Desc& d, Obs& o) {
         else s = new (::malloc(sizeof(SimShell))) SimShell(T.sarg(0), T.sarg(1), T.sarg(2), (size_t)T.arg(1), (int)t);
         owned.push_back(s); RS.shells.push_back(s);
     }
+    if (d.pi("via_api") && d.pi("early_ri")) { reg.setRunIgnored(); fired("run_ignored_set_before_registration"); }
     for (size_t t = owned.size(); t-- > 0;) reg.addTest(owned[t]);   // addTest prepends: registration order = description order
 
     Vec<SimPlugin*> plugins;
@@ -638,7 +639,7 @@ void executeRun(const Desc& d, Obs& o) {
         }
         reg.setGroupFilters(gfl); reg.setNameFilters(nfl);
         int lateRi = (int)d.pi("late_ri", 0);
-        if (c.runIgnored && lateRi == 0) reg.setRunIgnored();
+        if (c.runIgnored && lateRi == 0 && !d.pi("early_ri")) reg.setRunIgnored();      // (early_ri: it was switched on before the tests were registered, once)
         UtestShell::setRethrowExceptions(false);
         RecConsole* out = new (::malloc(sizeof(RecConsole))) RecConsole(); RS.primaryOutput = out;
         if (c.verbose == 1) out->verbose(TestOutput::level_verbose); if (c.verbose == 2) out->verbose(TestOutput::level_veryVerbose); if (c.color) out->color();
